@@ -239,15 +239,55 @@ func c12SearchAlwaysFinds(w *World, fi *FnInfo, phi *ssa.Phi) (proved, recognise
 	if idx < 0 || !closed || len(sites) == 0 {
 		return false, false
 	}
-	var madeWithK func(v ssa.Value, G *ssa.Function, depth int) bool
-	madeWithK = func(v ssa.Value, G *ssa.Function, depth int) bool {
-		if depth > 4 {
+	// madeWithK: every origin of v is a validation result created with Type K — an allocation whose Type field is set to the
+	// constant (directly, or from a parameter bound to the constant by the calls walked through), or what a module function
+	// returns when every Return of it hands back such an object.
+	type binding map[*ssa.Parameter]ssa.Value
+	resolve := func(v ssa.Value, bind binding) ssa.Value {
+		for n := 0; n < 4; n++ {
+			pa, ok := v.(*ssa.Parameter)
+			if !ok {
+				break
+			}
+			b, ok := bind[pa]
+			if !ok {
+				break
+			}
+			v = b
+		}
+		return v
+	}
+	var made func(v ssa.Value, bind binding, depth int) bool
+	made = func(v ssa.Value, bind binding, depth int) bool {
+		if depth > 5 {
 			return false
 		}
-		switch x := loadOrigin(v).(type) {
+		enter := func(call *ssa.Call, k int) bool {
+			g := staticCallee(call)
+			if g == nil || g.Blocks == nil || !w.IsProductFn(g) {
+				return false
+			}
+			nb := binding{}
+			for pi, pa := range g.Params {
+				if pi < len(call.Call.Args) {
+					nb[pa] = resolve(call.Call.Args[pi], bind)
+				}
+			}
+			nret := 0
+			for _, gb := range g.Blocks {
+				if r, ok := blockTerm(gb).(*ssa.Return); ok {
+					nret++
+					if k >= len(r.Results) || !made(r.Results[k], nb, depth+1) {
+						return false
+					}
+				}
+			}
+			return nret > 0
+		}
+		switch x := loadOrigin(resolve(v, bind)).(type) {
 		case *ssa.Phi:
 			for _, e := range x.Edges {
-				if !madeWithK(e, G, depth+1) {
+				if !made(e, bind, depth+1) {
 					return false
 				}
 			}
@@ -260,7 +300,7 @@ func c12SearchAlwaysFinds(w *World, fi *FnInfo, phi *ssa.Phi) (proved, recognise
 				if fa, ok := r.(*ssa.FieldAddr); ok && fieldName(fa.X.Type(), fa.Field) == "Type" && fa.Referrers() != nil {
 					for _, rr := range *fa.Referrers() {
 						if st, ok := rr.(*ssa.Store); ok && st.Addr == ssa.Value(fa) {
-							if k, ok := st.Val.(*ssa.Const); ok && constString(k) == K {
+							if k, ok := resolve(st.Val, bind).(*ssa.Const); ok && constString(k) == K {
 								return true
 							}
 						}
@@ -269,99 +309,166 @@ func c12SearchAlwaysFinds(w *World, fi *FnInfo, phi *ssa.Phi) (proved, recognise
 			}
 			return false
 		case *ssa.Call:
-			// the result of a module function every Return of which hands back such an object (a constructor, or a stage
-			// that returns what a constructor made)
-			g := staticCallee(x)
-			if g == nil || g.Blocks == nil || !w.IsProductFn(g) {
-				return false
-			}
-			nret := 0
-			for _, gb := range g.Blocks {
-				if r, ok := blockTerm(gb).(*ssa.Return); ok {
-					nret++
-					if len(r.Results) == 0 || !madeWithK(r.Results[0], g, depth+1) {
-						return false
-					}
-				}
-			}
-			return nret > 0
+			return enter(x, 0)
 		case *ssa.Extract:
-			call, ok := x.Tuple.(*ssa.Call)
-			if !ok {
-				return false
+			if call, ok := x.Tuple.(*ssa.Call); ok {
+				return enter(call, x.Index)
 			}
-			g := staticCallee(call)
-			if g == nil || g.Blocks == nil || !w.IsProductFn(g) {
-				return false
-			}
-			nret := 0
-			for _, gb := range g.Blocks {
-				if r, ok := blockTerm(gb).(*ssa.Return); ok {
-					nret++
-					if x.Index >= len(r.Results) || !madeWithK(r.Results[x.Index], g, depth+1) {
-						return false
-					}
-				}
-			}
-			return nret > 0
 		}
 		return false
 	}
-	for _, site := range sites {
-		if idx >= len(site.Call.Args) {
-			return false, true
+	madeWithK := func(v ssa.Value, G *ssa.Function, depth int) bool { return made(v, binding{}, depth) }
+	var proveSites func(f *ssa.Function, idx int, depth int) bool
+	proveSites = func(f *ssa.Function, idx int, depth int) bool {
+		fsites, fclosed := c07CallSites(w, f)
+		if !fclosed || len(fsites) == 0 || depth > 3 {
+			return false
 		}
-		A := site.Call.Args[idx]
-		G := site.Parent()
-		ok := false
-		for _, b := range G.Blocks {
-			for _, in := range b.Instrs {
-				st, isSt := in.(*ssa.Store)
-				if !isSt {
-					continue
+		for _, site := range fsites {
+			if idx >= len(site.Call.Args) {
+				return false
+			}
+			A := site.Call.Args[idx]
+			G := site.Parent()
+			ok := false
+			// appended(F, isList, elemOK): the instructions of F that append a result made with K to the list
+			var appended func(F *ssa.Function, isOutcome func(ssa.Value) bool, elemOK func(ssa.Value) bool, depth int) []ssa.Instruction
+			appended = func(F *ssa.Function, isOutcome func(ssa.Value) bool, elemOK func(ssa.Value) bool, depth int) []ssa.Instruction {
+				var out []ssa.Instruction
+				if depth > 2 {
+					return nil
 				}
-				fa, isFa := st.Addr.(*ssa.FieldAddr)
-				if !isFa || fieldName(fa.X.Type(), fa.Field) != "VerificationResults" || !(fa.X == A || desc(fa.X) == desc(A)) {
-					continue
-				}
-				app, isCall := st.Val.(*ssa.Call)
-				if !isCall || len(app.Call.Args) != 2 {
-					continue
-				}
-				if bi, isB := app.Call.Value.(*ssa.Builtin); !isB || bi.Name() != "append" {
-					continue
-				}
-				sl, isSl := app.Call.Args[1].(*ssa.Slice)
-				if !isSl {
-					continue
-				}
-				arr, isArr := sl.X.(*ssa.Alloc)
-				if !isArr || arr.Referrers() == nil {
-					continue
-				}
-				all, n := true, 0
-				for _, r := range *arr.Referrers() {
-					if ia, isIa := r.(*ssa.IndexAddr); isIa && ia.Referrers() != nil {
-						for _, rr := range *ia.Referrers() {
-							if est, isE := rr.(*ssa.Store); isE && est.Addr == ssa.Value(ia) {
-								n++
-								if !madeWithK(est.Val, G, 0) {
-									all = false
+				for _, b := range F.Blocks {
+					for _, in := range b.Instrs {
+						switch x := in.(type) {
+						case *ssa.Store:
+							fa, isFa := x.Addr.(*ssa.FieldAddr)
+							if !isFa || fieldName(fa.X.Type(), fa.Field) != "VerificationResults" || !isOutcome(fa.X) {
+								continue
+							}
+							app, isCall := x.Val.(*ssa.Call)
+							if !isCall || len(app.Call.Args) != 2 {
+								continue
+							}
+							if bi, isB := app.Call.Value.(*ssa.Builtin); !isB || bi.Name() != "append" {
+								continue
+							}
+							sl, isSl := app.Call.Args[1].(*ssa.Slice)
+							if !isSl {
+								continue
+							}
+							arr, isArr := sl.X.(*ssa.Alloc)
+							if !isArr || arr.Referrers() == nil {
+								continue
+							}
+							all, n := true, 0
+							for _, r := range *arr.Referrers() {
+								if ia, isIa := r.(*ssa.IndexAddr); isIa && ia.Referrers() != nil {
+									for _, rr := range *ia.Referrers() {
+										if est, isE := rr.(*ssa.Store); isE && est.Addr == ssa.Value(ia) {
+											n++
+											if !elemOK(est.Val) {
+												all = false
+											}
+										}
+									}
 								}
+							}
+							if all && n > 0 {
+								out = append(out, in)
+							}
+						case *ssa.Call:
+							// a recording helper or closure that is handed the outcome (or captured it) and the result
+							var h *ssa.Function
+							var mc *ssa.MakeClosure
+							if h = staticCallee(x); h == nil {
+								if m, isMC := x.Call.Value.(*ssa.MakeClosure); isMC {
+									mc = m
+									h, _ = m.Fn.(*ssa.Function)
+								} else if ld, isLd := loadOrigin(x.Call.Value).(*ssa.MakeClosure); isLd {
+									mc = ld
+									h, _ = ld.Fn.(*ssa.Function)
+								}
+							} else if m, isMC := x.Call.Value.(*ssa.MakeClosure); isMC {
+								mc = m
+							}
+							if h == nil || h.Blocks == nil || !w.IsProductFn(h) {
+								continue
+							}
+							args := x.Call.Args
+							hOutcome := func(v ssa.Value) bool {
+								v = loadOrigin(v)
+								if pa, isP := v.(*ssa.Parameter); isP && pa.Parent() == h {
+									if pi := c07ParamIndex(h, pa); pi >= 0 && pi < len(args) {
+										return isOutcome(args[pi])
+									}
+								}
+								if un, isUn := v.(*ssa.UnOp); isUn {
+									if fv, isFV := un.X.(*ssa.FreeVar); isFV && mc != nil {
+										for bi, f := range h.FreeVars {
+											if f == fv && bi < len(mc.Bindings) {
+												if al, isAl := mc.Bindings[bi].(*ssa.Alloc); isAl {
+													if sv := onlyDirectStore(al); sv != nil {
+														return isOutcome(sv)
+													}
+												}
+											}
+										}
+									}
+								}
+								return false
+							}
+							hElem := func(v ssa.Value) bool {
+								if pa, isP := loadOrigin(v).(*ssa.Parameter); isP && pa.Parent() == h {
+									if pi := c07ParamIndex(h, pa); pi >= 0 && pi < len(args) {
+										return elemOK(args[pi])
+									}
+									return false
+								}
+								return madeWithK(v, h, 0)
+							}
+							inner := appended(h, hOutcome, hElem, depth+1)
+							// the helper appends on every path: some append of it is executed before each of its Returns
+							every := len(inner) > 0
+							for _, hb := range h.Blocks {
+								if r, isRet := blockTerm(hb).(*ssa.Return); isRet {
+									okR := false
+									for _, ap := range inner {
+										if c07Before(ap, r) {
+											okR = true
+										}
+									}
+									if !okR {
+										every = false
+									}
+								}
+							}
+							if every {
+								out = append(out, in)
 							}
 						}
 					}
 				}
-				if all && n > 0 && c07Before(st, site) {
+				return out
+			}
+			for _, ap := range appended(G, func(v ssa.Value) bool { return v == A || desc(v) == desc(A) || loadOrigin(v) == loadOrigin(A) }, func(v ssa.Value) bool { return madeWithK(v, G, 0) }, 0) {
+				if c07Before(ap, site) {
 					ok = true
 				}
 			}
+			if !ok {
+				// the outcome is handed on: the calling function received it itself — decided at its own call sites
+				if pa, isParam := A.(*ssa.Parameter); isParam && pa.Parent() == G {
+					if pi := c07ParamIndex(G, pa); pi >= 0 && proveSites(G, pi, depth+1) {
+						continue
+					}
+				}
+				return false
+			}
 		}
-		if !ok {
-			return false, true
-		}
+		return true
 	}
-	return true, true
+	return proveSites(fn, idx, 0), true
 }
 
 // c12IsSearchPhi: one of the phi's non-nil edges is an element taken out of a collection (a slice or map element, a range
